@@ -22,6 +22,10 @@ pub enum Source {
     Sfs,
     /// laid out as numpy writes it
     Numpy { dtype: Dtype, big: bool, version: u8 },
+    /// as numpy before 1.14 wrote it: header padded to a multiple of 16 only, so that the data need
+    /// not start on a 64-byte boundary; the first `blanks` data bytes are spaces or line feeds
+    /// (what header padding is made of)
+    Unpadded { dtype: Dtype, big: bool, blanks: u8, line_feed: bool },
 }
 
 #[derive(Clone, Debug, Serialize, Deserialize)]
@@ -51,6 +55,21 @@ pub fn npy_file(case: &NpyCase) -> Result<(Vec<u8>, usize), Failure> {
             }
             Ok((out, dtype.size()))
         }
+        Source::Unpadded { dtype, big, blanks, line_feed } => {
+            let order = if *big { Order::Big } else { Order::Little };
+            let dict = npy::numpy_dict(&npy::descr(*dtype, order), false, &case.shape);
+            let mut out = npy::wrap_header(&dict, 1, 16);
+            let start = out.len();
+            let mask = if dtype.size() == 8 { u64::MAX } else { (1u64 << (8 * dtype.size())) - 1 };
+            for i in 0..n as u64 {
+                npy::encode_element(*dtype, order, crate::engine::splitmix64(case.seed ^ i) & mask & 0x3fff_ffff_ffff_ffff, &mut out);
+            }
+            let end = out.len();
+            for b in out[start..end.min(start + *blanks as usize)].iter_mut() {
+                *b = if *line_feed { b'\n' } else { b' ' };
+            }
+            Ok((out, dtype.size()))
+        }
     }
 }
 
@@ -59,6 +78,7 @@ fn npy_strategy() -> impl Strategy<Value = NpyCase> {
         prop_oneof![
             2 => Just(Source::Sfs),
             3 => (any::<u16>(), any::<bool>(), 1u8..=3).prop_map(|(d, big, version)| Source::Numpy { dtype: ALL_DTYPES[pick_idx(d, ALL_DTYPES.len())], big, version }),
+            1 => (any::<u16>(), any::<bool>(), 0u8..=20, any::<bool>()).prop_map(|(d, big, blanks, line_feed)| Source::Unpadded { dtype: ALL_DTYPES[pick_idx(d, ALL_DTYPES.len())], big, blanks, line_feed }),
         ],
         prop_oneof![
             12 => shape_strategy(1, 5, 1, 4, 60).boxed(),
@@ -177,6 +197,7 @@ fn eval_npy(_ctx: &Ctx, case: &NpyCase) -> Verdict {
     pass.add_label(match &case.source {
         Source::Sfs => "sfs-writer".to_string(),
         Source::Numpy { dtype, big, version } => format!("numpy-{}{}-v{version}", if *big { ">" } else { "<" }, dtype.code()),
+        Source::Unpadded { blanks, .. } => format!("numpy-header-padded-to-16-data-begins-with-{}-blank-bytes", if *blanks == 0 { "0" } else if *blanks <= 16 { "1..16" } else { ">16" }),
     });
     Ok(pass)
 }
